@@ -21,6 +21,14 @@ REQUIRED = ['getNBest_shape', 'plurality_shape', 'quotaSelector_refusals', 'ha_s
             'benham_refusals_partial', 'benham_refusals_witness', 'tideman_shape', 'tideman_refusals_partial', 'tideman_no_votes',
             'tideman_refusals_witness', 'bucklin_shape_partial', 'bucklin_whole_shape_partial', 'bucklin_refusals',
             'bucklin_whole_refusals', 'bucklin_answers', 'bucklin_whole_refusals_all', 'bucklin_short_witness',
+            # Lemmas/ShapeCardinal.lean, ShapeApprovalPAV.lean
+            'score_shape', 'score_refusals', 'score_total', 'score_refusals_partial', 'score_refusals_witness', 'score_total_trunc',
+            'spav_shape', 'spav_refusals', 'pav_shape', 'pavStep_shape', 'pav_refusals', 'pavStep_refusals', 'mj_shape', 'mjPlus_total',
+            'mjPlus_refusals', 'mjDefault_refusals_partial', 'mj_refusals_partial', 'mj_refusals_witness', 'star_shape', 'star_refusals',
+            'star_total', 'star_refusals_partial', 'allocated_shape_partial', 'allocated_shape_witness', 'allocated_refusals_partial',
+            'allocated_refusals_witness', 'mem_scoreCands', 'scoreCands_nodup',
+            # Lemmas/ShapeQuotaSubtract.lean
+            'qd_subtract_shape', 'qd_subtract_refusals', 'lr_subtract_shape', 'lr_subtract_refusals', 'qd_subtract_ties',
             # Lemmas/ShapeSTV.lean
             'stv_shape', 'stv_gregory_shape', 'stv_refusals', 'stv_refusals_partial', 'stv_fuel_unreachable', 'stv_gregory_no_fuel',
             'stv_default_refusals', 'stv_default_total', 'stv_droop_refusals', 'stv_hare_refusals', 'stvd_shape', 'stvd_gregory_shape',
@@ -37,7 +45,9 @@ PROVED_FAMILIES = ['plurality', 'ha_d_hondt', 'ha_sainte_lague', 'ha_imperiali',
                    'condorcet_kemeny_young', 'condorcet_winner', 'smith_set', 'schwartz_set',
                    'stv_gregory_hare', 'stv_gregory_droop', 'stv_dist_gregory_droop',
                    'rel_threshold_5pc', 'rel_threshold_third', 'abs_threshold_2', 'openlist_jump_5pc', 'openlist_quota_precedence',
-                   'openlist_tiebreaker_plurality', 'threshold_alternative', 'aux_input_order']
+                   'openlist_tiebreaker_plurality', 'threshold_alternative', 'aux_input_order',
+                   'lr_imperiali_subtract', 'lr_hagenbach_bischoff_subtract', 'qd_imperiali_subtract',
+                   'approval_pav', 'approval_spav', 'score_mean', 'score_sum0', 'score_median', 'majority_judgment_plus', 'star']
 NAMES = Names(prefix='cand')
 POSITIONAL = {'positional_borda': {'s': 'Borda', 'base': 1}, 'positional_borda0': {'s': 'Borda', 'base': 0},
               'positional_dowdall': {'s': 'Dowdall'}, 'positional_geometric': {'s': 'Geometric', 'base': 2},
@@ -50,6 +60,11 @@ OPENLIST = {'openlist_jump_5pc': {'jump_fraction': '1/20', 'quota': None, 'quota
                                   'accept_equal': False, 'list_precedence': False},
             'openlist_quota_precedence': {'jump_fraction': None, 'quota': 'droop', 'quota_fraction': '1/2', 'take_higher': False,
                                           'accept_equal': True, 'list_precedence': True}}
+CARDINAL = {'score_mean': {'op': 'score', 'function': 'mean'}, 'score_sum0': {'op': 'score', 'function': 'sum', 'unscored': '0'},
+            'score_median': {'op': 'score', 'function': 'median_low'},
+            'majority_judgment': {'op': 'mj', 'tie_breaking': 'default'}, 'majority_judgment_plus': {'op': 'mj', 'tie_breaking': 'plus'},
+            'star': {'op': 'star', 'added_count': 1, 'added_fraction': '0'},
+            'allocated_score_hare': {'op': 'allocated', 'quota': 'hare'}}
 CONDORCET_MODELLED = ('rankedpairs_winvotes', 'rankedpairs_margins', 'rankedpairs_pwo', 'copeland_2o', 'copeland_raw', 'schulze',
                       'kemeny_young', 'minimax_winvotes', 'minimax_margins', 'minimax_pwo')
 _FAMS = None
@@ -74,8 +89,16 @@ def local_families():
     import votelib.evaluate.openlist as vo
     import votelib.evaluate.auxiliary as vx
     import votelib.evaluate.threshold as vt
+    import votelib.evaluate.proportional as vp
     F = fam_mod.Family
     return [
+        # the 'subtract' over-award policy (a configuration of the largest-remainder family): low quotas over-award
+        F('lr_imperiali_subtract', 'simple', lambda: vp.LargestRemainder('imperiali', on_overaward='subtract'), kind='dist',
+          declared=True),
+        F('lr_hagenbach_bischoff_subtract', 'simple', lambda: vp.LargestRemainder('hagenbach_bischoff', on_overaward='subtract'),
+          kind='dist', declared=True),
+        F('qd_imperiali_subtract', 'simple', lambda: vp.QuotaDistributor('imperiali', on_overaward='subtract'), kind='dist',
+          declared=True, partial=True),
         F('openlist_jump_5pc', 'simple', lambda: _WithList(vo.ThresholdOpenList(jump_fraction=Fraction(5, 100)))),
         F('openlist_quota_precedence', 'simple',
           lambda: _WithList(vo.ThresholdOpenList(quota_function='droop', quota_fraction=Fraction(1, 2), accept_equal=True,
@@ -153,6 +176,11 @@ PARTIAL_FAMILIES = {
     **{f'condorcet_rankedpairs_{k}': 'rankedpairs_shape (exactly n places for n >= 3) is FALSE of the code: rankedpairs_short_witness, open '
        'finding; proved: rankedpairs_shape_partial (everything but the length, never shorter than 2), rankedpairs_shape_le_two, rankedpairs_refusals'
        for k in ('winvotes', 'margins', 'pwo')},
+    'majority_judgment': 'mjDefault_refusals (only declared refusals) is FALSE of the code (StatisticsError: mj_refusals_witness, open finding '
+                         'C08-mj-statistics-error); proved: mj_shape (full), mjDefault_refusals_partial (VotingSystemError or StatisticsError)',
+    'allocated_score_hare': 'allocated_shape (exactly n places) and allocated_refusals are FALSE of the code (allocated_shape_witness: a tie '
+                            'for several seats is listed once; allocated_refusals_witness: ValueError / IndexError; open findings); proved: '
+                            'allocated_shape_partial, allocated_refusals_partial',
     'benham': 'benham_refusals is FALSE of the code (IndexError: benham_refusals_witness, open findings C05-benham-*); proved for one seat: '
               'benham_shape, benham_refusals_partial; n_seats >= 2 is not modelled',
     'tideman_alternative': 'tideman_refusals is FALSE of the code (IndexError/KeyError: tideman_refusals_witness, open findings C05-tideman-*); '
@@ -198,7 +226,8 @@ def generate(rng, tier):
             n = rng.randint(1, max(1, len(cands)))
             yield {'op': 'shape', 'family': f.name, 'prof': prof, 'n': n, '_tags': [f.kind]}
     # directed: very few votes for many seats (rounded quotas reach 0), ties for the last remainder seat
-    for fam in ['lr_hare_rounded', 'lr_hagenbach_bischoff_rounded', 'lr_droop', 'lr_hare', 'qd_droop']:
+    for fam in ['lr_hare_rounded', 'lr_hagenbach_bischoff_rounded', 'lr_droop', 'lr_hare', 'qd_droop', 'lr_imperiali_subtract',
+                'qd_imperiali_subtract']:
         m = rng.randint(3, 6)
         vals = [0] * m
         vals[rng.randrange(m)] = 1
@@ -297,7 +326,7 @@ def zero_quota(case):
         return False
     import votelib.component.quota as vq
     try:
-        return vq.construct(f[3:])(sum(Fraction(w) for _, w in case['prof']), case['n']) == 0
+        return vq.construct(f[3:].replace('_subtract', ''))(sum(Fraction(w) for _, w in case['prof']), case['n']) == 0
     except Exception:
         return False
 
@@ -321,7 +350,8 @@ def model_line(case):
     if f in PROVED_FAMILIES and f.startswith('ha_'):
         return {'op': 'ha', 'divisor': f[3:], 'first_coef': None, 'votes': case['prof'], 'n': case['n'], 'prev': [], 'max': []}
     if f.startswith(('lr_', 'qd_')):
-        return {'op': f[:2], 'quota': f[3:], 'accept_equal': True, 'on_overaward': 'error', 'n': case['n'], 'votes': case['prof'],
+        pol = 'subtract' if f.endswith('_subtract') else 'error'
+        return {'op': f[:2], 'quota': f[3:].replace('_subtract', ''), 'accept_equal': True, 'on_overaward': pol, 'n': case['n'], 'votes': case['prof'],
                 'prev': None, 'max': None}
     if f.startswith('condorcet_') and f[len('condorcet_'):] in CONDORCET_MODELLED:
         # the evaluator's admissible vote type is the pairwise dictionary: convert with the REAL converter (C13) and send
@@ -343,6 +373,15 @@ def model_line(case):
     if f in THRESHOLDS:
         op, t, eq = THRESHOLDS[f]
         return {'op': op, 'votes': case['prof'], 'threshold': t, 'accept_equal': eq}
+    if f in ('approval_pav', 'approval_spav'):
+        return {'op': f[len('approval_'):], 'votes': case['prof'], 'n': case['n']}
+    if f in CARDINAL:
+        if not all(Fraction(w).denominator == 1 for _, w in case['prof']):
+            return None          # the aggregation expands one element per vote: integer counts only (C12)
+        line = {'votes': [[[[c, num_str(sc)] for c, sc in b], int(Fraction(w))] for b, w in case['prof']], 'n': case['n'],
+                'function': 'mean', 'unscored': None, 'min_count': 0, 'truncation': '0', 'bottom': '0'}
+        line.update(CARDINAL[f])
+        return line
     if f == 'aux_input_order':
         return {'op': 'input_order', 'votes': case['prof'], 'n': case['n']}
     if f == 'threshold_alternative':
@@ -381,6 +420,13 @@ def sel_unordered(obs):
 
 
 def compare(case, iobs, mobs):
+    if case['family'] in CARDINAL or case['family'] in ('approval_pav', 'approval_spav'):
+        # ballots are frozensets: equal scores come in hash order (the C12 correspondence canonicalises by the score keys; C08
+        # compares the shape: elected set + tie places)
+        if isinstance(mobs, dict) and 'sel' in mobs:
+            mobs = mobs['sel']
+        a, b = sel_unordered(iobs), sel_unordered(mobs)
+        return None if a == b else f'impl={json.dumps(a)} model={json.dumps(b)} (order-insensitive: frozenset ballots)'
     if (case['family'] in POSITIONAL and has_shared(case['prof'])) or case['family'] in ('approval_av', 'approval_sav'):
         a, b = sel_unordered(iobs), sel_unordered(mobs)
         return None if a == b else f'impl={json.dumps(a)} model={json.dumps(b)} (order-insensitive: frozenset ballots)'
